@@ -182,7 +182,7 @@ example : ∀ i t, i < exZ.size → t < 2 →
     ⟨⟨by decide, by decide, trivial⟩,
      ⟨by decide, _, rfl, trivial⟩,
      ⟨by decide, rfl, rfl, trivial⟩,
-     ⟨_, _, rfl, rfl, trivial⟩,
+     ⟨by decide, _, _, rfl, rfl, trivial⟩,
      ⟨by decide, _, rfl, trivial⟩, trivial⟩
     (RD_init _ exEnv exS (Rb_sound _ _ _ _ _ (by decide))) exZ (by decide)
 example : (run (astepD 2) exProgDD exA).env exZ = #[#[-25, 0]] := by decide +kernel
